@@ -9,8 +9,8 @@ git checkout -q -- . 2>/dev/null
 git apply --check "$sd/patch.diff" || { echo "CONFIRM $sd patch-does-not-apply"; exit 1; }
 git apply "$sd/patch.diff"
 suite=$(cargo nextest run --workspace --no-fail-fast --test-threads 8 --offline 2>&1 | grep -E "^\s+Summary" | tail -1)
-sh "$sd/run_demo.sh" > "$sd/confirm_with_patch.log" 2>&1; with=$?
+bash "$sd/run_demo.sh" > "$sd/confirm_with_patch.log" 2>&1; with=$?
 git apply -R "$sd/patch.diff"
-sh "$sd/run_demo.sh" > "$sd/confirm_clean.log" 2>&1; clean=$?
+bash "$sd/run_demo.sh" > "$sd/confirm_clean.log" 2>&1; clean=$?
 git status --short | grep -v "_seed" | head -3
 echo "CONFIRM $sd suite=[$suite] demo_with_patch_exit=$with demo_clean_exit=$clean"
